@@ -14,6 +14,9 @@ def main():
     for d in sorted(glob.glob(os.path.join(VERIF, 'seeded', '_harmless', '*'))):
         if not os.path.isdir(d):
             continue
+        only = [a for a in sys.argv[1:] if not a.startswith('-')]
+        if only and not any(os.path.basename(d).startswith(o + '-') or os.path.basename(d) == o for o in only):
+            continue
         p = subprocess.run([sys.executable, os.path.join(VERIF, 'tools', 'try_refactor.py'), os.path.join(d, 'patch.diff')], capture_output=True, text=True, timeout=7200)
         last = [l for l in p.stdout.splitlines() if l.startswith('{"patch"')]
         rec = json.loads(last[-1]) if last else {'error': p.stdout[-300:]}
